@@ -74,6 +74,8 @@ class MultiCtl(BaseMultiCtl, Module):
 
     class Mapping:
         def __init__(self, value):
+            # Allow (min, max, controller) triples; remaining fields default to 0.
+            value = tuple(value) + (0,) * (8 - len(value))
             (
                 self.min,
                 self.max,
